@@ -11,7 +11,7 @@ from ..families import (sample_config, make_data, make_affinity, build_model, FA
                         config_signature, needs_affinity, uses_precomputed)
 from ..seams import World, ModelHarness
 from .common import (sample_constraints, sample_sched, decorate, expected_batches, exc_site, is_harness_frame, quiet,
-                     sample_prefix, sample_param_change, second_dataset, run_generic_op)
+                     sample_prefix, sample_param_change, second_dataset, run_generic_op, apply_layout, sample_layouts)
 
 PROPERTY = "C10"
 RULE = ("one run = one seeded scenario record (family x GEMINI/affinity source x solver x batch_size x n,d,K x plain/"
@@ -56,6 +56,7 @@ def generate(rng):
     if min(cfg["n"], cfg["n2"]) >= 2 and rng.random() < 0.35:
         deco = sample_constraints(rng, min(cfg["n"], cfg["n2"]))
     cfg["decorate"] = deco
+    cfg["layouts"] = sample_layouts(rng)
     ops = sample_prefix(rng, cfg, p_any=0.3)
     ops.append({"op": "fit", "data": 0})
     if fam.get("sparse") and cfg["d"] >= 2 and rng.random() < 0.5:
@@ -101,12 +102,16 @@ class Checker:
         self.epochs_in_op = 0
         self.check_expected = False
         self.expected_full = None
+        self.expected_alt = None
         if kind in ("fit", "crash_fit") or (kind in ("path", "crash_path", "nan_path") and not getattr(self.h.model, "dynamic", False)):
             # what the full affinity of THIS call must be: the model's own GEMINI evaluated on the data being fitted now
             # (a stale matrix kept from an earlier call, other data or other hyper-parameters is what this catches)
             try:
                 g = self.h.orig_get_gemini()
-                self.expected_full = g.compute_affinity(self.kernelrim_input(X), A_user)
+                self.expected_full = g.compute_affinity(np.asarray(self.kernelrim_input(X), dtype=np.float64), A_user)
+                # the library may compute the affinity from the caller's array as it is (e.g. float32: path() does) or from
+                # its validated float64 copy (fit() does); both are "the affinity of the data being fitted"
+                self.expected_alt = g.compute_affinity(self.kernelrim_input(X), A_user) if np.asarray(X).dtype != np.float64 else None
                 self.check_expected = True
             except Exception:
                 self.check_expected = False
@@ -135,7 +140,11 @@ class Checker:
                 res.violate("C10:affinity_block:stale_or_foreign_full_matrix", {"epoch": h.epoch, "vs": "last computed"})
         if self.check_expected:
             exp = self.expected_full
-            if (exp is None) != (A_full is None) or (exp is not None and (np.shape(exp) != np.shape(A_full) or not np.array_equal(exp, A_full))):
+            alt = getattr(self, "expected_alt", None)
+
+            def differs(e):
+                return (e is None) != (A_full is None) or (e is not None and (np.shape(e) != np.shape(A_full) or not np.array_equal(e, A_full)))
+            if differs(exp) and (alt is None or differs(alt)):
                 res.violate("C10:affinity_block:stale_or_foreign_full_matrix", {"epoch": h.epoch, "vs": "affinity of the data being fitted"})
             else:
                 res.probe("full_affinity_checked_against_current_data")
@@ -232,7 +241,7 @@ class Checker:
                 res.violate("C10:val_block:rows", {"j": j, "b": b})
                 return
             want_p = self.raw_predict_proba(Xblk)
-            if not np.array_equal(want_p, yp):
+            if np.shape(want_p) != np.shape(yp) or not np.allclose(want_p, yp, rtol=1e-12, atol=1e-14, equal_nan=True):
                 res.violate("C10:val_block:predictions", {"j": j})
             if y is not None:
                 want_a = np.asarray(y)[j:j + b][:, j:j + b]
@@ -272,6 +281,8 @@ def execute(record):
         X = make_data(cfg)
         A = make_affinity(cfg, X)
         X1, A1 = second_dataset(cfg)
+        lay = cfg.get("layouts") or ["C", "C"]
+        X, X1 = apply_layout(X, lay[0]), apply_layout(X1, lay[1])     # the affinities were computed from the float64 values
         pool = [(X, A), (X1, A1)]
         model = build_model(cfg, log)
         world = World(log, res, rng)
@@ -310,7 +321,7 @@ def execute(record):
             out = raw_pp(Xq)
             if world.in_val_score:
                 sel = model.get_selection() if hasattr(model, "get_selection") else None
-                chk.val_probas.append((np.array(Xq, copy=True), sel))
+                chk.val_probas.append((Xq, sel))     # the very object (same memory layout): recomputation is then bitwise equal
             return out
         model.predict_proba = spy_pp
 
